@@ -42,7 +42,7 @@ MAX_FNS = {'np.maximum', 'np.max', 'max', 'np.nanmax', 'np.fmax', 'np.amax'}
 
 def run(ctx: Ctx):
   m = model(ctx)
-  for r in (r1, r2, r3, r4, r5, r6, r7, r10, r11, r12, r13, r14):
+  for r in (r1, r2, r3, r4, r5, r6, r7, r10, r11, r12, r13, r14, r15):
     ctx.guard(r, m)
   ctx.include('R-C01-8', 'merge leaves its operand intact and shares no'
               ' mutable state with it (R-C11-1, R-C11-2): a shard state that'
@@ -50,6 +50,11 @@ def run(ctx: Ctx):
               ' merged again', _c11_shared, m, min_instances=20)
   ctx.include('R-C01-9', 'a partial merge stays a sufficient statistic'
               ' (R-C11-6 lossless merge)', c11.r6, m, min_instances=15)
+  from mlmverif.props import c07
+  ctx.include('R-C01-16', '"a metric value for one example never depends on which other examples share its'
+              ' batch": padding / masked entries an external matcher marks with negative values are removed'
+              ' before they are counted, as the docstring promises (R-C07-17) — otherwise a count statistic'
+              ' grows with the padding a batch happens to need', c07.r17, {}, min_instances=2)
 
 
 def _c11_shared(sub, m):
@@ -1014,11 +1019,62 @@ def r14(ctx: Ctx, m):
   ctx.floor(rule, 3, n)
 
 
+def r15(ctx: Ctx, m):
+  rule = 'R-C01-15'
+  ctx.rule(rule, '"a metric value for one example never depends on which other examples happen to share'
+           ' its batch": inside a loop over the examples of a batch, nothing that is computed FROM the'
+           ' current example is memoised across iterations — no `if v is None: v = f(<loop variables>)`'
+           ' (or `v = v or f(...)`) for a variable initialised outside the loop. The first example\'s'
+           ' value would be reused for all others: with ragged rows every row is then truncated or'
+           ' padded to the length of whichever row comes first in the batch')
+  repo = ctx.repo
+  n = 0
+  hits = 0
+  for mod in ('aggregates.retrieval', 'aggregates.classification', 'aggregates.rolling_stats', 'aggregates.text',
+              'aggregates.stats', 'aggregates.utils'):
+    try:
+      mi = repo.module(mod)
+    except Exception:  # pylint: disable=broad-exception-caught
+      continue
+    fns = list(mi.functions.values()) + [m_ for c in mi.classes.values() for m_ in c.methods.values()]
+    for fi in fns:
+      for lp in walk_no_nested(fi.node):
+        if not isinstance(lp, ast.For):
+          continue
+        n += 1
+        lvars = {y.id for y in ast.walk(lp.target) if isinstance(y, ast.Name)}
+        inits = {t.id for x in walk_no_nested(fi.node) if isinstance(x, ast.Assign) and x.lineno < lp.lineno
+                 and isinstance(x.value, ast.Constant) and x.value.value is None for t in x.targets if isinstance(t, ast.Name)}
+        for x in ast.walk(lp):
+          memo = None
+          if isinstance(x, ast.If) and isinstance(x.test, ast.Compare) and isinstance(x.test.ops[0], ast.Is) and isinstance(
+              x.test.left, ast.Name) and x.test.left.id in inits and unparse(x.test.comparators[0]) == 'None':
+            for b in x.body:
+              if isinstance(b, ast.Assign) and any(isinstance(t, ast.Name) and t.id == x.test.left.id for t in b.targets) and any(
+                  isinstance(y, ast.Name) and y.id in lvars for y in ast.walk(b.value)):
+                memo = (b, x.test.left.id)
+          if memo:
+            hits += 1
+            ctx.fail(rule, fi, f'{fi.qualname}: per-example values are computed per example',
+                     f'`{unparse(memo[0])[:60]}` is computed from the current example (`{sorted(lvars)}`) but kept in'
+                     f' `{memo[1]}`, which is initialised before the loop and only filled while it is None: every later'
+                     ' example of the batch reuses the first example\'s value, so its result depends on its batch mates',
+                     node=memo[0])
+  if not hits:
+    ctx.ok(rule, repo.func('aggregates.retrieval', 'retrieval_matcher'), f'{n} loops over examples, no cross-iteration memo',
+           repo.func('aggregates.retrieval', 'retrieval_matcher').node)
+  ctx.floor(rule, 1)
+
+
 from mlmverif.selfcheck import B, OK  # noqa: E402
 
 _R = 'aggregates/rolling_stats.py'
 _C = 'aggregates/classification.py'
 VARIANTS = [
+    B('default-probabilities-from-the-first-row', 'aggregates/retrieval.py',
+      '  for row_true, row_pred, row_prob in zip(y_true, y_pred, y_prob, strict=True):\n    row_prob = (\n        np.ones_like(row_pred, dtype=np.float32)\n        if row_prob is None\n        else np.asarray(row_prob)\n    )',
+      '  default_prob = None\n  for row_true, row_pred, row_prob in zip(y_true, y_pred, y_prob, strict=True):\n    if row_prob is None:\n      if default_prob is None:\n        default_prob = np.ones_like(row_pred, dtype=np.float32)\n      row_prob = default_prob\n    else:\n      row_prob = np.asarray(row_prob)',
+      'R-C01-15'),
     B('vocab-at-k-stops-at-longest-row', _C,
       '  for j in range(max(k_list)):', '  max_k = min(max(k_list), max(map(len, rows), default=0))\n  for j in range(max_k):', 'R-C01-14'),
     OK('vocab-at-k-bound-through-local', _C,
